@@ -146,6 +146,8 @@ pub struct World {
     pub fd0_taken: bool,
     /// length of a pad header the next composed request gets (used to hit exact total sizes)
     pub next_pad: usize,
+    /// the values of the requests' extra header fields carry multi-byte characters
+    pub unicode_headers: bool,
 }
 
 pub fn fd_set() -> BTreeSet<RawFd> {
@@ -334,6 +336,7 @@ impl World {
             keep_answered: false,
             surplus_responds: 0,
             next_pad: 0,
+            unicode_headers: false,
             saved0,
             fd0_taken: kill_on_0,
         })
@@ -472,7 +475,11 @@ impl World {
         v.extend_from_slice(crate::refparse::VERSIONS[spec.version as usize]);
         v.extend_from_slice(b"\r\n");
         for k in 0..spec.extra_headers {
-            v.extend_from_slice(format!("X-H{}: v{}\r\n", k, j).as_bytes());
+            if self.unicode_headers {
+                v.extend_from_slice(format!("X-H{}: v{}{}\r\n", k, j, "\u{e9}\u{20ac}\u{1d11e}".repeat(5)).as_bytes());
+            } else {
+                v.extend_from_slice(format!("X-H{}: v{}\r\n", k, j).as_bytes());
+            }
         }
         let pad = std::mem::take(&mut self.next_pad);
         if pad > 0 {
